@@ -21,21 +21,22 @@ import (
 
 // Case is one self-contained experiment on the implementation (what a replay file holds as `input`).
 type Case struct {
-	IDL   string       `json:"idl"`
-	Root  []string     `json:"root"`            // type tokens of the descriptor NewFieldMask is called with
-	Black bool         `json:"black"`           //
-	Paths []string     `json:"paths"`           // hex, one per path string
-	AP    [][][]string `json:"ap,omitempty"`    // per path string: the abstract paths it denotes (known by construction); nil = unknown
-	Op    string       `json:"op"`              // new | query | getpath | json | unmarshal | order
-	Steps []string     `json:"steps,omitempty"` // query / json: step tokens
-	GP    string       `json:"gp,omitempty"`    // getpath: hex path
-	GPAP  []string     `json:"gpap,omitempty"`  // getpath: abstract path of GP when known (single keys, no '*')
-	GPTd  bool         `json:"gptd,omitempty"`  // getpath: GP walks through a typedef'd type
-	Doc   string       `json:"doc,omitempty"`   // unmarshal: hex JSON document
-	Alt   []string     `json:"alt,omitempty"`   // order: hex, the same abstract paths written in another order / grouping
-	Docs  []string     `json:"docs,omitempty"`  // cache: hex JSON documents
-	Hist  [][2]int     `json:"hist,omitempty"`  // cache: (receive buffer, document) per step; mhist: (mask, api) per step
-	Masks []MaskSpec   `json:"masks,omitempty"` // mhist: the masks of a marshal history
+	IDL     string       `json:"idl"`
+	Root    []string     `json:"root"`               // type tokens of the descriptor NewFieldMask is called with
+	Black   bool         `json:"black"`              //
+	Paths   []string     `json:"paths"`              // hex, one per path string
+	AP      [][][]string `json:"ap,omitempty"`       // per path string: the abstract paths it denotes (known by construction); nil = unknown
+	Op      string       `json:"op"`                 // new | query | getpath | json | unmarshal | order
+	Steps   []string     `json:"steps,omitempty"`    // query / json: step tokens
+	GP      string       `json:"gp,omitempty"`       // getpath: hex path
+	GPAP    []string     `json:"gpap,omitempty"`     // getpath: abstract path of GP when known (single keys, no '*')
+	GPTd    bool         `json:"gptd,omitempty"`     // getpath: GP walks through a typedef'd type
+	Doc     string       `json:"doc,omitempty"`      // unmarshal: hex JSON document
+	Alt     []string     `json:"alt,omitempty"`      // order: hex, the same abstract paths written in another order / grouping
+	Docs    []string     `json:"docs,omitempty"`     // cache: hex JSON documents
+	Hist    [][2]int     `json:"hist,omitempty"`     // cache: (receive buffer, document) per step; mhist: (mask, api) per step
+	Masks   []MaskSpec   `json:"masks,omitempty"`    // mhist: the masks of a marshal history
+	WantErr bool         `json:"want_err,omitempty"` // new: the last path writes a number that is no field id of the struct
 }
 
 func (c *Case) paths() []string {
@@ -126,6 +127,9 @@ func check(c *Case) []fail {
 	}
 	if c.Op == "new" {
 		// (a panic on a negative field id is the separate finding panic:head-negative-index)
+		if c.WantErr && len(c.Paths) > 0 && out == "ok" {
+			fs = append(fs, fail{"new:non-field-id-accepted", "a number that is not literally a field id of the struct was accepted as a field step (ids are exact integers, not wrapped)", "error", "a mask"})
+		}
 		if selOK && out != "ok" && pk != "head-negative-index" {
 			fs = append(fs, fail{"new:valid-paths-rejected", "grammar-generated paths without '*' conflict were rejected", "a mask", out})
 		}
@@ -736,6 +740,7 @@ func (rn *runner) scenario(w *World, g *pathGen, nq int) {
 			}
 		}
 	}
+	rn.fieldIDSpellings(w, g)
 	// UnmarshalJSON of mutated / random documents
 	nd := 2
 	for i := 0; i < nd; i++ {
@@ -789,6 +794,57 @@ func (rn *runner) cacheHistory(w *World) {
 	c := Case{IDL: w.IDL, Root: []string{"n" + vl.Hex(w.Sch.Structs[0].Name)}, Op: "cache", Docs: hexAll(docs), Hist: hist}
 	rn.out.Count("cache-history")
 	rn.report(c, check(&c))
+}
+
+// fieldIDSpellings: `$.<spelling>` (optionally continued by a grammar path below the field) for a field with a
+// non-negative id: leading zeros denote the same field (same mask as the plain id), every other spelling —
+// id + 2^32*j, id + 2^16*j, 2^31-1, 2^31, 2^32-1, 2^63-1, 2^63, 2^64, 20 and 40 digit literals, "+id", "-0" —
+// must be an error.
+func (rn *runner) fieldIDSpellings(w *World, g *pathGen) {
+	st := w.Sch.Structs[g.r.Intn(len(w.Sch.Structs))]
+	var cands []Field
+	for _, f := range st.Fields {
+		if f.ID >= 0 && w.Sch.kind(f.Ty) != "invalid" {
+			cands = append(cands, f)
+		}
+	}
+	if len(cands) == 0 {
+		return
+	}
+	f := cands[g.r.Intn(len(cands))]
+	isField := func(v int64) bool {
+		for _, x := range st.Fields {
+			if int64(x.ID) == v {
+				return true
+			}
+		}
+		return false
+	}
+	sps := idSpellings(int(f.ID), isField)
+	sp := sps[g.r.Intn(len(sps))]
+	root := &Ty{K: 'n', Name: st.Name}
+	tail, tailAP, _ := g.valid(f.Ty)
+	path := "$." + sp.text + tail[1:]
+	black := g.r.Chance(30)
+	c := Case{IDL: w.IDL, Root: root.Toks(), Black: black, Paths: hexAll([]string{path}), Op: "new", WantErr: !sp.accept}
+	if sp.accept {
+		c.AP = [][][]string{nil}
+		for _, t := range tailAP {
+			c.AP[0] = append(c.AP[0], append([]string{"f" + strconv.Itoa(int(f.ID))}, t...))
+		}
+	}
+	_, out, _ := w.newMask(root, black, []string{path})
+	rn.out.Case(fmt.Sprintf("N 5 %s %s 1 %s", vl.B(black), strings.Join(root.Toks(), " "), vl.Hex(path)), out, out == "ok")
+	rn.out.Count(fmt.Sprintf("field-id-spelling/accept=%v", sp.accept))
+	rn.report(c, check(&c))
+	if sp.accept && out == "ok" {
+		// same mask as the plain spelling
+		plain := "$." + strconv.Itoa(int(f.ID)) + tail[1:]
+		c2 := c
+		c2.Op = "order"
+		c2.Alt = hexAll([]string{plain})
+		rn.report(c2, check(&c2))
+	}
 }
 
 func run(dir string, seed uint64, tier string) error {
